@@ -1,0 +1,24 @@
+//go:build verif
+
+package gate
+
+import "go.minekube.com/gate/pkg/gate/config"
+
+// Verification hooks (build tag "verif" only). Thin exported wrappers around
+// unexported functions; they add no behaviour.
+
+// VerifApplyMergePatch exposes applyMergePatch.
+func VerifApplyMergePatch(target, patch any) any { return applyMergePatch(target, patch) }
+
+// VerifMergeConfigPatch exposes mergeConfigPatch.
+func VerifMergeConfigPatch(current *config.Config, patch string) (*config.Config, error) {
+	return mergeConfigPatch(current, patch)
+}
+
+// VerifConfigVersion exposes configVersion.
+func VerifConfigVersion(cfg *config.Config) (string, error) { return configVersion(cfg) }
+
+// VerifDecodeConfigStrict exposes decodeConfigStrict (extension is ".yml", ".yaml" or ".json").
+func VerifDecodeConfigStrict(b []byte, extension string, candidate *config.Config) error {
+	return decodeConfigStrict(b, extension, candidate)
+}
